@@ -18,7 +18,8 @@ from __future__ import annotations
 
 import ast
 
-from core.loader import FuncInfo, norm, own_nodes
+from core.inline_stmt import Inliner, _recopy
+from core.loader import FuncInfo, Repo, norm, own_nodes
 
 from .common import dotted
 
@@ -124,11 +125,19 @@ def analyse(info: LoopInfo) -> list[Finding]:
             plain_rebound |= names_of(n.target)
     # values derived from the current element
     derived: set[str] = set(info.elems)
+    # (may-dependence: a local bound on several paths - `name = root if top else f"{root}.{dotted}"` written as if / else, a
+    # helper expanded in place - depends on the element when one of its bindings does)
+    bindings: dict[str, list[ast.expr]] = {}
+    for n in _stmts(body):
+        if isinstance(n, (ast.Assign, ast.AnnAssign)) and getattr(n, "value", None) is not None:
+            for t in (n.targets if isinstance(n, ast.Assign) else [n.target]):
+                if isinstance(t, ast.Name):
+                    bindings.setdefault(t.id, []).append(n.value)
     changed = True
     while changed:
         changed = False
-        for name, val in single.items():
-            if name not in derived and names_of(val) & derived:
+        for name, vals in bindings.items():
+            if name not in derived and any(names_of(val) & derived for val in vals):
                 derived.add(name)
                 changed = True
     # accumulators: containers that exist before the loop and are grown inside it
@@ -228,6 +237,20 @@ def analyse(info: LoopInfo) -> list[Finding]:
         tainted.discard(container)
         return tainted
 
+    # keys under which each accumulator is looked up anywhere in the body (a helper expanded at two call sites tests the same
+    # set under two local names)
+    looked_up: dict[str, set[str]] = {}
+    for _owner, test in tests:
+        for p in expand(test):
+            for c in ast.walk(p):
+                if isinstance(c, ast.Compare) and len(c.ops) == 1 and isinstance(c.ops[0], (ast.In, ast.NotIn)):
+                    right = c.comparators[0]
+                    if isinstance(right, ast.Call) and isinstance(right.func, ast.Attribute) and right.func.attr == "keys":
+                        right = right.func.value
+                    if dotted(right):
+                        looked_up.setdefault(dotted(right), set()).add(norm(c.left))
+                elif isinstance(c, ast.Call) and isinstance(c.func, ast.Attribute) and c.func.attr in ("get", "__contains__") and dotted(c.func.value) and c.args:
+                    looked_up.setdefault(dotted(c.func.value), set()).add(norm(c.args[0]))
     for owner, test in tests:
         parts = expand(test)
         for container, events in grows.items():
@@ -265,7 +288,7 @@ def analyse(info: LoopInfo) -> list[Finding]:
             # membership only: slot initialisation of a mapping is no selection
             if isinstance(owner, ast.If) and not owner.orelse and all(_slot_init(st, container, key_texts) for st in owner.body):
                 continue
-            keys_ok = all(not bulk and key is not None and norm(key) in key_texts for _n, key, bulk in events)
+            keys_ok = all(not bulk and key is not None and norm(key) in (key_texts | looked_up.get(container, set())) for _n, key, bulk in events)
             key_names: set[str] = set()
             for k in memberships:
                 key_names |= names_of(k)
@@ -290,10 +313,92 @@ def analyse(info: LoopInfo) -> list[Finding]:
                     uses_element = True
             if uses_element:
                 inside = {id(x) for n in key_locals if n in single for x in ast.walk(single[n])} | {id(x) for p in parts for x in ast.walk(p)} | {id(x) for _n, key, _b in events if key is not None for x in ast.walk(key)}
-                real = [st for st in _stmts(body) if isinstance(st, ast.Name) and isinstance(st.ctx, ast.Load) and st.id in info.elems and id(st) not in inside]
+                # what is kept must be decided by the test: only uses of the element (or of values derived from it, other than
+                # the key) that are control dependent on the test count - its branches, what follows a continue / break / return
+                # taken in them, and what later tests of flags set in them guard
+                governed = _governed(body, owner)
+                kept_names = (derived - key_locals) | info.elems
+                real = [st for st in _stmts(body) if isinstance(st, ast.Name) and isinstance(st.ctx, ast.Load) and st.id in kept_names and id(st) not in inside and id(st) in governed]
                 if real:
                     reported.add((id(owner), container))
                     out.append(Finding(info, test, container, f"`{norm(test, 100)}` de-duplicates on the derived value `{', '.join(sorted(key_texts))}` while the element `{', '.join(sorted(info.elems))}` itself is kept: of two elements with the same key, the one that happens to come first wins"))
+    return out
+
+
+def _exits(block: list[ast.stmt]) -> bool:
+    """The block can leave the current iteration early (continue / break / return / raise at its own loop level)."""
+    stack = list(block)
+    while stack:
+        n = stack.pop()
+        if isinstance(n, (ast.Continue, ast.Break, ast.Return, ast.Raise)):
+            return True
+        if isinstance(n, (ast.For, ast.AsyncFor, ast.While)):
+            stack.extend(x for x in ast.walk(n) if isinstance(x, (ast.Return, ast.Raise)))
+            continue
+        if isinstance(n, (ast.FunctionDef, ast.AsyncFunctionDef, ast.ClassDef, ast.Lambda)):
+            continue
+        stack.extend(ast.iter_child_nodes(n))
+    return False
+
+
+def _governed(body: list[ast.stmt], owner: ast.AST) -> set[int]:
+    """ids of the nodes of the loop body whose execution depends on the outcome of the test of `owner`."""
+    out: set[int] = set()
+    flags: set[str] = set()
+    deciders: list[ast.AST] = [owner]
+    seen: set[int] = set()
+
+    def branches(n: ast.AST) -> list[list[ast.stmt]]:
+        if isinstance(n, (ast.If, ast.While)):
+            return [n.body, n.orelse]
+        return []
+
+    def following(block: list[ast.stmt], target: ast.AST) -> list[ast.stmt] | None:
+        """Statements executed after `target` within the loop body (rest of every enclosing block)."""
+        for i, st in enumerate(block):
+            if st is target:
+                return list(block[i + 1:])
+            for fld in ("body", "orelse", "finalbody"):
+                sub = getattr(st, fld, None)
+                if isinstance(sub, list) and sub and isinstance(sub[0], ast.stmt):
+                    r = following(sub, target)
+                    if r is not None:
+                        # leaving an inner loop's body continues that loop, not the rest of the outer block - still governed
+                        return r + list(block[i + 1:])
+            for h in getattr(st, "handlers", []) or []:
+                r = following(h.body, target)
+                if r is not None:
+                    return r + list(block[i + 1:])
+        return None
+
+    while deciders:
+        d = deciders.pop()
+        if id(d) in seen:
+            continue
+        seen.add(id(d))
+        if isinstance(d, ast.IfExp):
+            region = [d.body, d.orelse]
+            for e in region:
+                out |= {id(x) for x in ast.walk(e)}
+            continue
+        if isinstance(d, ast.comprehension):
+            continue
+        blocks = branches(d)
+        for b in blocks:
+            for st in b:
+                for x in ast.walk(st):
+                    out.add(id(x))
+                    if isinstance(x, ast.Name) and isinstance(x.ctx, ast.Store):
+                        flags.add(x.id)
+        if any(_exits(b) for b in blocks):
+            rest = following(body, d) or []
+            for st in rest:
+                for x in ast.walk(st):
+                    out.add(id(x))
+        # later tests of the flags set in the governed region
+        for n in _stmts(body):
+            if isinstance(n, (ast.If, ast.While, ast.IfExp)) and id(n) not in seen and names_of(n.test) & flags:
+                deciders.append(n)
     return out
 
 
@@ -316,3 +421,95 @@ def is_dir_listing(e: ast.AST) -> bool:
             if isinstance(c.func, ast.Name) and c.func.id in DIR_LISTING:
                 return True
     return False
+
+
+# --------------------------------------------------------------------------- test-and-set helpers
+
+
+class _HoistingInliner(Inliner):
+    """The inlined view, with one more form: a helper that is called *inside the test* of an `if` and has effects of its own
+    (`if not self._register(name): continue` - the helper looks the name up in a set, adds it, and reports whether it was new).
+    The call is moved in front of the `if` (`t = self._register(name)`; `if not t:`), where the ordinary assignment form expands
+    the helper: its membership test and its additions become visible in the loop that calls it.  A call that is only evaluated
+    when the operands before it hold (`a and not helper(x)`) is moved into an `if` of these operands."""
+
+    def _has_effects(self, callee: FuncInfo) -> bool:
+        for n in own_nodes(callee.node):
+            if isinstance(n, ast.Call) and isinstance(n.func, ast.Attribute) and n.func.attr in GROWERS | {"remove", "discard", "pop", "clear"}:
+                return True
+            if isinstance(n, (ast.Assign, ast.AugAssign, ast.AnnAssign)):
+                tg = n.targets if isinstance(n, ast.Assign) else [n.target]
+                if any(isinstance(t, (ast.Attribute, ast.Subscript)) for t in tg):
+                    return True
+        return False
+
+    def _hoistable(self, ctx: FuncInfo, e: ast.AST, stack: tuple) -> ast.Call | None:
+        """The call evaluated first by the test `e`, if it is a helper with effects that the assignment form can expand."""
+        while True:
+            if isinstance(e, ast.UnaryOp) and isinstance(e.op, ast.Not):
+                e = e.operand
+            elif isinstance(e, ast.Compare):
+                e = e.left
+            elif isinstance(e, ast.BoolOp):
+                e = e.values[0]
+            else:
+                break
+        if not isinstance(e, ast.Call) or len(stack) > self.max_depth:
+            return None
+        callee = self._resolve(ctx, e)
+        if callee is None or callee.fq in stack or not self._eligible(ctx, callee, "assign") or not self._has_effects(callee):
+            return None
+        return e
+
+    def _block(self, ctx, stmts, taken, origin, stack):
+        out: list[ast.stmt] = []
+        for s in stmts:
+            if isinstance(s, ast.If):
+                s = self._split_and(ctx, s, stack)
+                call = self._hoistable(ctx, s.test, stack)
+                if call is not None:
+                    name = self._fresh("outcome", getattr(call.func, "attr", getattr(call.func, "id", "call")), taken)
+                    taken.add(name)
+                    tmp = ast.copy_location(ast.Assign(targets=[ast.Name(id=name, ctx=ast.Store())], value=call), s)
+                    ast.fix_missing_locations(tmp)
+                    if hasattr(s, "_src"):
+                        tmp._src = s._src  # type: ignore[attr-defined]
+                    ref = ast.copy_location(ast.Name(id=name, ctx=ast.Load()), call)
+                    s.test = _replace(s.test, call, ref)
+                    out.append(tmp)
+            out.append(s)
+        return super()._block(ctx, out, taken, origin, stack)
+
+    def _split_and(self, ctx, s: ast.If, stack) -> ast.If:
+        """`if a and <test starting with an effectful helper call>: B` (no else)  ->  `if a: if <test>: B`."""
+        t = s.test
+        if isinstance(t, ast.BoolOp) and isinstance(t.op, ast.And) and not s.orelse:
+            for i in range(1, len(t.values)):
+                if self._hoistable(ctx, t.values[i], stack) is not None:
+                    first = t.values[0] if i == 1 else ast.copy_location(ast.BoolOp(op=ast.And(), values=t.values[:i]), t)
+                    rest = t.values[i] if i == len(t.values) - 1 else ast.copy_location(ast.BoolOp(op=ast.And(), values=t.values[i:]), t)
+                    inner = ast.copy_location(ast.If(test=rest, body=s.body, orelse=[]), s)
+                    if hasattr(s, "_src"):
+                        inner._src = s._src  # type: ignore[attr-defined]
+                    s.test, s.body = first, [inner]
+                    break
+        return s
+
+
+def _replace(e: ast.AST, old: ast.AST, new: ast.AST) -> ast.AST:
+    if e is old:
+        return new
+    for fld, val in ast.iter_fields(e):
+        if isinstance(val, ast.AST):
+            setattr(e, fld, _replace(val, old, new))
+        elif isinstance(val, list):
+            setattr(e, fld, [_replace(x, old, new) if isinstance(x, ast.AST) else x for x in val])
+    return e
+
+
+def hoisted_view(repo: Repo, fi: FuncInfo, T) -> FuncInfo:
+    key = ("c15_hoisted_view", fi.fq)
+    cache = repo.__dict__.setdefault("_view_cache", {})
+    if key not in cache:
+        cache[key] = _HoistingInliner(repo, T).view(fi)
+    return cache[key]
